@@ -285,7 +285,7 @@ Theorem mgm2_terminates_k_fuel60 : forall d stop thr favor orc sched,
      t_cycle (w_st (nodes cf x)) = fin_cycle d stop x /\ t_fin (w_st (nodes cf x)) = 1).
 Proof. exact P_Mgm2z.mgm2_terminates_k_FUEL_l. Qed.
 
-(* non-vacuity for MGM2: the two-variable instance of the C03 witness (P_Mgm2.w03_*), stop_cycle 2, complete
+(* non-vacuity for MGM2: the two-variable instance of the C03 witness (w03_d, w03_sched of P_Mgm2.v), stop_cycle 2, complete
    run with an accepted offer and a coordinated move: both started, degree 1 <= 5, all channels empty at the
    end, both finished exactly once with cycle counter 2 *)
 Example c07_nonvacuous_mgm2 :
